@@ -200,12 +200,16 @@ func c10r2(w *World, rr *RuleRun) {
 		case t.Op == OpSlice && t.Args[0].Op == OpDeref && t.Args[0].Args[0].Op == OpLocal:
 			// local buffer: must be filled by PutUint64 with t.UnixNano()/interval
 			kind = "buffer"
-			eachInstr([]*ssa.Function{ct}, func(_ *ssa.Function, ins ssa.Instruction) {
+			bufLocal, _ := t.Args[0].Args[0].Obj.(*ssa.Alloc)
+			eachInstr(w.RegionOf(ct), func(f *ssa.Function, ins ssa.Instruction) {
 				c := callInstrCommon(ins)
 				if c == nil {
 					return
 				}
 				if o := calleeObj(c); o != nil && o.Name() == "PutUint64" && len(c.Args) >= 3 {
+					if f != ct && !(bufLocal != nil && storedFromCallTo(bufLocal, f)) {
+						return // fills some other helper's buffer
+					}
 					v := w.TS.Of(c.Args[2]).String()
 					if strings.Contains(v, "UnixNano") && strings.Contains(v, ".interval") && strings.Contains(v, "/") {
 						kind = "interval-index"
@@ -424,4 +428,19 @@ func c10r4(w *World, rr *RuleRun) {
 	if n < 2 {
 		rr.Oblige(shortFuncName(h.fn), "get and get_peers reply sites found", w.P.Pos(h.fn.Pos()), false, fmt.Sprintf("%d", n))
 	}
+}
+
+// storedFromCallTo: the local is assigned the result of a call to fn.
+func storedFromCallTo(a *ssa.Alloc, fn *ssa.Function) bool {
+	if a.Referrers() == nil {
+		return false
+	}
+	for _, r := range *a.Referrers() {
+		if st, ok := r.(*ssa.Store); ok && st.Addr == a {
+			if c, ok := st.Val.(*ssa.Call); ok && c.Common().StaticCallee() == fn {
+				return true
+			}
+		}
+	}
+	return false
 }
